@@ -91,6 +91,15 @@ pub fn c14(args: &Args) {
             }
         }
     }
+    // long then short, and the same string twice with another in between (state kept between calls)
+    {
+        let long: Vec<u8> = (0..5000).map(|i| (i % 253) as u8).collect();
+        out.emit(h2p_event(&long, "order-long"));
+        out.emit(h2p_event(b"short", "order-short-after-long"));
+        out.emit(h2p_event(&[], "order-empty"));
+        out.emit(h2p_event(b"short", "order-short-again"));
+        out.emit(h2p_event(&long[..136], "order-rate"));
+    }
     // salt || message shaped inputs as sign/verify build them
     for i in 0..(if thorough { 1200 } else { 6 }) {
         let mut s = vec![0u8; 40 + (i * 7) % 300];
